@@ -311,12 +311,42 @@ def logDetCurvatureRegTerm (logDet : List (List α) → α) (F : List (List α))
 def logDetRegularizationTerm (logDet : List (List α) → α) (objs : List (LinObj α)) : α :=
   if !hasRegularization objs then 0 else logDet (regularizationMatrixReduced objs)
 
+/-- `np.diag(M)` of a square matrix given as a list of rows. -/
+def diag (M : List (List α)) : List α :=
+  (List.range M.length).map fun i => (M.getD i []).getD i 0
+
+/-- how `log_det_curvature_reg_matrix_term` (and the fallback of `log_det_regularization_matrix_term`)
+    obtains its value: `2.0 * np.sum(np.log(np.diag(np.linalg.cholesky(A))))`.  The factorisation
+    `chol` is a parameter (contract: lower-triangular `L` with positive diagonal and `L·Lᵀ = A`). -/
+def logDetViaCholesky [OfNat α 2] (log : α → α) (chol : List (List α) → List (List α))
+    (A : List (List α)) : α :=
+  2 * ((diag (chol A)).map log).foldl (· + ·) 0
+
+/-- how `log_det_regularization_matrix_term` obtains its value on the SuperLU path:
+    `lu = splu(csc_matrix(A)); np.real(np.log(lu.L.diagonal().astype(complex)).sum()
+                                       + np.log(lu.U.diagonal().astype(complex)).sum())`
+    — the real part of a complex logarithm is the logarithm of the modulus.  The factorisation `lu`
+    (returning `(L, U)`) is a parameter (contract: `P_r·A·P_c = L·U`, `L` lower- and `U` upper-triangular). -/
+def logDetViaLU (log abs : α → α) (lu : List (List α) → List (List α) × List (List α))
+    (A : List (List α)) : α :=
+  ((diag (lu A).1).map fun x => log (abs x)).foldl (· + ·) 0
+    + ((diag (lu A).2).map fun x => log (abs x)).foldl (· + ·) 0
+
 /-- the three scalars handed to the fit. -/
 def invTerms (logDet : List (List α) → α) (F : List (List α)) (s : List α)
     (objs : List (LinObj α)) : InvTerms α :=
   { regularizationTerm := regularizationTerm s objs
     logDetCurvatureReg := logDetCurvatureRegTerm logDet F objs
     logDetRegularization := logDetRegularizationTerm logDet objs }
+
+/-- the three scalars as the code computes them: Cholesky for `F + H`, SuperLU for `H`. -/
+def invTermsViaFactorisations [OfNat α 2] (log abs : α → α)
+    (chol : List (List α) → List (List α))
+    (lu : List (List α) → List (List α) × List (List α))
+    (F : List (List α)) (s : List α) (objs : List (LinObj α)) : InvTerms α :=
+  { regularizationTerm := regularizationTerm s objs
+    logDetCurvatureReg := logDetCurvatureRegTerm (logDetViaCholesky log chol) F objs
+    logDetRegularization := logDetRegularizationTerm (logDetViaLU log abs lu) objs }
 
 end inv
 
